@@ -3,6 +3,7 @@ package main
 import (
 	"fmt"
 	"math"
+	"reflect"
 	"sort"
 	"time"
 
@@ -177,6 +178,41 @@ var exoticPtrs = func() []*int {
 	}
 	return p
 }()
+
+// veq compares two values the way a user would: identical if they are == ; the
+// two signed zeros are different values; uncomparable values (slices, maps) are
+// compared by contents (every generated one is unique by contents).
+func veq(a, b any) (eq bool) {
+	if fa, ok := a.(float64); ok {
+		fb, ok := b.(float64)
+		return ok && math.Float64bits(fa) == math.Float64bits(fb)
+	}
+	defer func() {
+		if recover() != nil {
+			eq = reflect.DeepEqual(a, b)
+		}
+	}()
+	return a == b
+}
+
+// genValueU adds values whose dynamic type is not comparable, and signed zeros,
+// to the exotic catalogue (twin mode: any-valued containers only).
+func genValueU(k int, id int64) any {
+	switch id % 11 {
+	case 7:
+		return []int{int(id), k}
+	case 8:
+		return map[int]int{k: int(id)}
+	case 9:
+		if id%2 == 0 {
+			return math.Copysign(0, -1)
+		}
+		return 0.0
+	case 10:
+		return []string{fmt.Sprint(id)}
+	}
+	return genValue(true, k, id)
+}
 
 func genValue(exotic bool, k int, id int64) any {
 	if !exotic {
@@ -423,7 +459,7 @@ func (sr *seqRunner) runSeqCase(cs *seqCase) (nontrivial bool, fp uint64) {
 				return
 			}
 			val := func(want any, wantOK bool) {
-				if r.OK != wantOK || r.V != want {
+				if r.OK != wantOK || !veq(r.V, want) {
 					st := "absent"
 					if keyed {
 						st = kclass
@@ -505,7 +541,7 @@ func (sr *seqRunner) runSeqCase(cs *seqCase) (nontrivial bool, fp uint64) {
 				if hit {
 					wantOld, wantLoaded = e.v, true
 				}
-				if r.FnCalls >= 1 && (r.FnOld != wantOld || r.FnLoaded != wantLoaded) {
+				if r.FnCalls >= 1 && (!veq(r.FnOld, wantOld) || r.FnLoaded != wantLoaded) {
 					bad("value", fmt.Sprintf("Compute hands wrong old value on %s entry", kclass), "%s: Compute(k%d) valueFn saw (%s,%v), model (%s,%v)", step, name, op.K, fmtVal(r.FnOld), r.FnLoaded, fmtVal(wantOld), wantLoaded)
 				}
 				del := op.Fn == "del" || op.Fn == "delnz" || (op.Fn == "cond" && hit)
@@ -532,7 +568,7 @@ func (sr *seqRunner) runSeqCase(cs *seqCase) (nontrivial bool, fp uint64) {
 						bad("range", "Range visits a key twice", "%s: Range visited k%d twice", step, name, kv.K)
 					case !ok:
 						bad("range", "Range visits "+mdl.class(kv.K, now)+" entry", "%s: Range visited k%d which is %s in the model", step, name, kv.K, mdl.class(kv.K, now))
-					case want != kv.V:
+					case !veq(want, kv.V):
 						bad("range", "Range visits a stale/foreign value", "%s: Range visited k%d=%s, model %s", step, name, kv.K, fmtVal(kv.V), fmtVal(want))
 					}
 					seen[kv.K] = true
@@ -556,7 +592,7 @@ func (sr *seqRunner) runSeqCase(cs *seqCase) (nontrivial bool, fp uint64) {
 						bad("range", "Range visits an entry that was not live when the traversal began", "%s: Range visited k%d (%s)", step, name, kv.K, mdl.class(kv.K, now))
 					case seen[kv.K]:
 						bad("range", "Range visits a key twice", "%s: Range visited k%d twice", step, name, kv.K)
-					case want != kv.V:
+					case !veq(want, kv.V):
 						bad("range", "Range visits a stale/foreign value", "%s: Range visited k%d=%s, model %s", step, name, kv.K, fmtVal(kv.V), fmtVal(want))
 					}
 					seen[kv.K] = true
@@ -603,7 +639,7 @@ func (sr *seqRunner) runSeqCase(cs *seqCase) (nontrivial bool, fp uint64) {
 					bad("callback", "callback fired although none is installed", "%s: %s fired %d callbacks with no callback installed", step, name, op.Op, len(r.Cbs))
 				}
 				for _, cb := range r.Cbs {
-					if cb.K != op.K || me == nil || cb.V != me.v {
+					if cb.K != op.K || me == nil || !veq(cb.V, me.v) {
 						bad("callback", op.Op+" callback with wrong key/value", "%s: %s(k%d) fired callback (k%d,%s), model entry %v", step, name, op.Op, op.K, cb.K, fmtVal(cb.V), me)
 					}
 					if cb.ID != mdl.cbID {
@@ -628,7 +664,7 @@ func (sr *seqRunner) runSeqCase(cs *seqCase) (nontrivial bool, fp uint64) {
 						bad("callback", "DeleteExpired callback for an entry that does not exist", "%s: DeleteExpired fired (k%d,%s), no such entry", step, name, cb.K, fmtVal(cb.V))
 					case vis:
 						bad("callback", "DeleteExpired callback for an unexpired entry", "%s: DeleteExpired fired (k%d,%s) but the entry is live", step, name, cb.K, fmtVal(cb.V))
-					case me.v != cb.V:
+					case !veq(me.v, cb.V):
 						bad("callback", "DeleteExpired callback with wrong value", "%s: DeleteExpired fired (k%d,%s), entry holds %s", step, name, cb.K, fmtVal(cb.V), fmtVal(me.v))
 					case seen[cb.K]:
 						bad("callback", "DeleteExpired duplicate callback", "%s: DeleteExpired fired k%d twice", step, name, cb.K)
@@ -801,7 +837,7 @@ func firstWord(s string) string {
 
 func diffRes(a, b cres, stopped bool) string {
 	switch {
-	case a.V != b.V:
+	case !veq(a.V, b.V):
 		return fmt.Sprintf("value %s vs %s", fmtVal(a.V), fmtVal(b.V))
 	case a.OK != b.OK:
 		return fmt.Sprintf("flag %v vs %v", a.OK, b.OK)
@@ -815,7 +851,7 @@ func diffRes(a, b cres, stopped bool) string {
 		return fmt.Sprintf("default %d vs %d", a.D, b.D)
 	case a.B != b.B:
 		return fmt.Sprintf("hascallback %v vs %v", a.B, b.B)
-	case a.FnCalls != b.FnCalls || a.FnOld != b.FnOld || a.FnLoaded != b.FnLoaded:
+	case a.FnCalls != b.FnCalls || !veq(a.FnOld, b.FnOld) || a.FnLoaded != b.FnLoaded:
 		return fmt.Sprintf("valueFn calls=%d old=%s loaded=%v vs calls=%d old=%s loaded=%v", a.FnCalls, fmtVal(a.FnOld), a.FnLoaded, b.FnCalls, fmtVal(b.FnOld), b.FnLoaded)
 	case len(a.Visited) != len(b.Visited) || (!stopped && !sameKVs(a.Visited, b.Visited)):
 		return fmt.Sprintf("visited %d vs %d pairs (or different pairs)", len(a.Visited), len(b.Visited))
@@ -838,7 +874,7 @@ func sameKVs(a, b []kvp) bool {
 		m[x.K] = x.V
 	}
 	for _, x := range b {
-		if v, ok := m[x.K]; !ok || v != x.V {
+		if v, ok := m[x.K]; !ok || !veq(v, x.V) {
 			return false
 		}
 	}
@@ -870,7 +906,7 @@ func sameItems(a, b map[int]any) bool {
 		return false
 	}
 	for k, v := range a {
-		if w, ok := b[k]; !ok || w != v {
+		if w, ok := b[k]; !ok || !veq(w, v) {
 			return false
 		}
 	}
